@@ -1,5 +1,6 @@
 import PdeVerif.Json
 import PdeVerif.Model.Serialize
+import PdeVerif.Model.GridCache
 /-
 Driver of the C14 model: every handler evaluates the definitions of `PdeVerif.Serialize` (the ones
 the theorems of `Props/C14.lean` are about) at `Rat` (mode "Q", exact) or `Float` (mode "F", the
@@ -178,6 +179,62 @@ def gridH (j : Json) : Except String Json := do
       ("copy_eq", match cp with | .ok c => toJson (gridEq c g && gridEq g c) | .error _ => Json.null)]
       ++ derived))
 
+/-- a cache value -/
+def jCVal : CVal K → Json
+  | .arr l => Json.arr (l.map cd.put).toArray
+  | .arrs l => Json.arr (l.map fun a => Json.arr (a.map cd.put).toArray).toArray
+  | .flag b => Json.bool b
+
+def parseProps (j : Json) (k : String) : Except String (List CProp) := do
+  let names ← (← fld j k).getArr?
+  names.toList.mapM fun n => do
+    let s ← n.getStr?
+    match CProp.ofName s with
+    | some p => pure p
+    | none => throw s!"unknown cached property {s}"
+
+def parseRoute (s : String) : Except String Route :=
+  match s with
+  | "from_state" => pure .fromState
+  | "from_json" => pure .fromJson
+  | "copy" => pure .copy
+  | "pickle" => pure .pickle
+  | _ => throw s!"unknown route {s}"
+
+/-- the attributes `__init__` stored and the names in `_cache_methods` -/
+def jInst (i : GridInst K) : Json :=
+  Json.mkObj [("axes", toJson i.axes), ("axes_symmetric", toJson i.axesSymmetric),
+    ("num_axes", toJson i.numAxes),
+    ("coords", Json.arr (i.axesCoords.map fun l => Json.arr (l.map cd.put).toArray).toArray),
+    ("dx", Json.arr (i.discretization.map cd.put).toArray),
+    ("keys", toJson i.cacheKeys)]
+
+/-- {"grid", "pi", "reads": [property names], "route", "reads2": [property names]}: the instance model
+(`Model/GridCache.lean`): construct, read the properties `reads` one after the other, restore through
+`route`, read `reads2` on the restored instance.  Reported: the instance after each stage and the value
+every read returned. -/
+def instanceH (j : Json) : Except String Json := do
+  let r ← construct cd (← fld j "grid")
+  match r with
+  | .error e => pure (Json.mkObj [("err", Json.str (errName e))])
+  | .ok g =>
+    let pi ← cd.get (← fld j "pi")
+    let reads ← parseProps j "reads"
+    let reads2 ← parseProps j "reads2"
+    let route ← parseRoute (← fldS j "route")
+    let i0 := g.construct
+    let step := fun (st : GridInst K × List Json) (p : CProp) =>
+      let rr := st.1.read pi p
+      (rr.2, st.2 ++ [Json.arr #[Json.str p.name, jCVal cd rr.1]])
+    let (i1, vals1) := reads.foldl step (i0, [])
+    match i1.restore route with
+    | .error e => pure (Json.mkObj [("constructed", jInst cd i0), ("restore_err", Json.str (errName e))])
+    | .ok i2 =>
+      let (i3, vals2) := reads2.foldl step (i2, [])
+      pure (Json.mkObj [("constructed", jInst cd i0), ("after_reads", jInst cd i1),
+        ("values", Json.arr vals1.toArray), ("restored", jInst cd i2),
+        ("after_reads2", jInst cd i3), ("values2", Json.arr vals2.toArray)])
+
 /-- {"tree": value, "via": "base" | class tag} -> from_state of an arbitrary (possibly malformed)
 tree -/
 def fromStateH (j : Json) : Except String Json := do
@@ -323,6 +380,7 @@ def dispatch (hq : Json → Except String Json) (hf : Json → Except String Jso
 def handlers : List (String × Handler) := [
   ("c14.grid", dispatch (gridH codecQ) (gridH codecF)),
   ("c14.fromstate", dispatch (fromStateH codecQ) (fromStateH codecF)),
+  ("c14.instance", dispatch (instanceH codecQ) (instanceH codecF)),
   ("c14.eq", dispatch (eqH codecQ) (eqH codecF)),
   ("c14.field", dispatch (fieldH codecQ) (fieldH codecF)),
   ("c14.collection", dispatch (collectionH codecQ) (collectionH codecF)),
